@@ -382,6 +382,7 @@ def run_coq(terms, tag, imports, shard=250, timeout=900):
     d = os.path.join(CACHE, "cases", "%s_%d" % (tag, os.getpid()))
     shutil.rmtree(d, ignore_errors=True)
     os.makedirs(d)
+    shard = min(shard, max(20, -(-len(terms) // NPROC)))      # balance the shards over the cores
     shards = [terms[i:i+shard] for i in range(0, len(terms), shard)]
     def one(k):
         path = os.path.join(d, "cases_%d.v" % k)
